@@ -116,16 +116,29 @@ Definition uuid_to_string (u : str) : outcome str :=
   do b <- lg_set b 23 45;
   Ok b.
 
-(* ---------- hostport (pattern.go:288-299) ---------- *)
+(* ---------- hostport (pattern.go:288-305) ---------- *)
+(* if len(host) > 1 && host[0] == '[' && host[len(host)-1] == ']' { host = host[1:len(host)-1] }
+   (since 0f981ad) *)
+Definition strip_brackets (h : str) : outcome str :=
+  if Nat.ltb 1 (length h) then
+    do a <- lg_idx h 0;
+    if negb (a =? 91) then Ok h else
+    do b <- lg_idx h (length h - 1);
+    if negb (b =? 93) then Ok h else
+    do t <- lg_upto h (length h - 1); lg_from t 1
+  else Ok h.
+
 Definition hostport (s : str) : outcome (str * str) :=
   match s with
   | [] => Ok ([], [])
   | _ => match last_index_byte s 58 with
          | None => Ok (s, [])                  (* no port (since bb1b4e7) *)
-         | Some n => do h <- lg_upto s n; do p <- lg_from s (n + 1); Ok (h, p)
+         | Some n => do h <- lg_upto s n; do p <- lg_from s (n + 1);
+                     do h' <- strip_brackets h; Ok (h', p)
          end
   end.
-(* before bb1b4e7: n = -1 went straight into s[:n]; kept for the refutation theorem only *)
+(* the helper as it was before bb1b4e7 and 0f981ad: n = -1 went straight into s[:n], and an
+   IPv6 literal kept its brackets; kept for the refutation theorems only *)
 Definition hostport_unrepaired (s : str) : outcome (str * str) :=
   match s with
   | [] => Ok ([], [])
@@ -440,9 +453,14 @@ Definition uuid_text (u : str) : str :=
 (* --- address splitting: "host:port" --- *)
 Definition has_colon (s : str) : bool :=
   match index_byte s 58 with Some _ => true | None => false end.
-(* s is h ++ ":" ++ p and p contains no ':' : the only such split *)
+(* "[" ... "]" *)
+Definition is_bracketed (h : str) : bool :=
+  Nat.ltb 1 (length h) && has_prefix h [91] && has_suffix h [93].
+(* net.SplitHostPort-style: the port is what follows the last ':' (it contains none); the
+   host is what precedes it, without the brackets when it has the form "[" ... "]" *)
 Definition is_hostport_split (s h p : str) : bool :=
-  beq s (h ++ [58] ++ p) && negb (has_colon p).
+  negb (has_colon p)
+  && ((beq s (h ++ [58] ++ p) && negb (is_bracketed h)) || beq s ([91] ++ h ++ [93] ++ [58] ++ p)).
 
 (* ====================== finding regions and domain ====================== *)
 Scheme Equality for fld.
@@ -452,16 +470,6 @@ Definition uses (p : list item) (fs : list fld) : bool :=
 
 Definition remote_of (e : event) : str := match e_req e with Some r => rq_remote r | None => [] end.
 Definition time_fields : list fld := [FTimeCommon; FTimeRfc; FTimeRfcMs; FTimeRfcUs; FTimeRfcNs].
-
-(* region 3 (F-C20-3): a host field over a bracketed IPv6 literal "[...]:port" *)
-Definition bracketed (s : str) : bool :=
-  has_colon s &&
-  match hostport s with
-  | Ok (h, _) => has_prefix h [91] && has_suffix h [93]
-  | _ => false
-  end.
-Definition region_brackets (p : list item) (e : event) : bool :=
-  (uses p [FUpHost] && bracketed (e_upaddr e)) || (uses p [FRemoteHost] && bracketed (remote_of e)).
 
 (* what every theorem about a rendered event assumes of the numbers in it *)
 Definition int64_ok (z : Z) : bool := (min_int64 <? z)%Z && (z <=? max_int64)%Z.
